@@ -98,13 +98,19 @@ func (s bitmap32) And(provider Provider[uint32]) {
 		s.bitmap.And(typedProvider.bitmap)
 
 	case Duplex[uint32]:
+		// Collect the values to drop first: removing from the bitmap while iterating it invalidates the
+		// iterator, which then skips values and leaves a wrong result behind.
+		removals := roaring.New()
+
 		s.Each(func(nextValue uint32) bool {
 			if !typedProvider.Contains(nextValue) {
-				s.Remove(nextValue)
+				removals.Add(nextValue)
 			}
 
 			return true
 		})
+
+		s.bitmap.AndNot(removals)
 	}
 }
 
@@ -137,12 +143,18 @@ func (s bitmap32) AndNot(provider Provider[uint32]) {
 		s.bitmap.AndNot(typedProvider.bitmap)
 
 	case Duplex[uint32]:
+		// Collect the values to drop first: removing from the bitmap while iterating it invalidates the
+		// iterator, which then skips values and leaves a wrong result behind.
+		removals := roaring.New()
+
 		s.Each(func(nextValue uint32) bool {
 			if typedProvider.Contains(nextValue) {
-				s.Remove(nextValue)
+				removals.Add(nextValue)
 			}
 
 			return true
 		})
+
+		s.bitmap.AndNot(removals)
 	}
 }
